@@ -312,7 +312,7 @@ Qed.
 Lemma sim2_vote : forall s sp v n b, step_sim2 s sp (RVote v) (SVote v) n b n b.
 Proof.
   intros s sp v n b. unfold step_sim2. cbn [spec_step].
-  destruct (opair_leb (sp_vote sp) (Some v)) eqn:E; [|exact I].
+  destruct (ovote_accepts (sp_vote sp) v) eqn:E; [|exact I].
   intros lo t c seg HS HB Hlo.
   assert (HV : forall s0 : sm, r_vote (m_rs s0) = sp_vote sp -> rs_validate (m_rs s0) (RVote v) = None).
   { intros s0 H0. unfold rs_validate. rewrite H0, E. reflexivity. }
